@@ -60,10 +60,10 @@ func ModuleEntries() []Entry {
 			}
 			tail := ""
 			if f.Flip("section") {
-				tail += `, section "my sec"`
+				tail += `, section "my sec \5Cde\5C\5Cx"` // (bytes: backslash d e backslash backslash x)
 			}
 			if f.Flip("partition") && init != "" && link != "common " {
-				tail += `, partition "part"`
+				tail += `, partition "part\5Cab"`
 			}
 			if init != "" && link != "common " {
 				switch f.N("comdat", 3) {
@@ -218,9 +218,9 @@ func ModuleEntries() []Entry {
 			case 1:
 				f.Need(`target triple = "x86_64-unknown-linux-gnu"`)
 			case 2:
-				f.Need(`module asm "nop"`, `module asm ".globl foo\0A\22quoted\22"`)
+				f.Need(`module asm "nop"`, `module asm ".globl foo\0A\22quoted\22"`, `module asm ".macro m base\0A\5Cbase\0A.endm"`)
 			case 3:
-				f.Need(`source_filename = "dir/a b.c"`)
+				f.Need(`source_filename = "C:\5CUsers\5Cdev\5Ca1\5Cmain.c"`)
 			case 4:
 				f.Need("@G = global i32 0")
 				f.TopLine("define void @%s(i32 %%a) {\n  %%x = add i32 %%a, 1\n  %%y = add i32 %%a, 2\n  %%z = add i32 %%a, 3\n  ret void\n  uselistorder i32 %%a, { 2, 0, 1 }\n}", f.Uniq("f"))
@@ -303,7 +303,7 @@ func funcHeader(f *Frag, def bool) {
 		f.TailLine("attributes #%d = { nounwind \"g\"=\"h\" }", id)
 		fa += fmt.Sprintf(" #%d", id)
 	}
-	sec := f.Opt("section", ` section "fsec"`)
+	sec := f.Opt("section", ` section "fsec\5Cfe"`)
 	part := ""
 	if def {
 		part = f.Opt("partition", ` partition "fp"`)
